@@ -55,7 +55,7 @@ static const char *opname[OP_N] = { "normal", "supersede", "timeout", "abort", "
 
 typedef struct {
 	int      mode, tran, nctx, npipes;
-	bool     use_sock, kills, big;
+	bool     use_sock, kills, big, rchg;
 	long     exchanges;
 	int      retry_ms; // <= 0: infinite
 	int      tick_ms;
@@ -939,7 +939,7 @@ ctx_thread(void *arg)
 			int  dir = (cc->retry_ms > 0 && vf_chance(r, 1, 16)) ? D_DELAY : D_NORMAL;
 			bool big = cc->big && vf_chance(r, 1, 12);
 			if (t_send(t, dir, big) != 0) break;
-			if (cc->retry_ms > 0 && cc->mode != M_XREP && vf_chance(r, 1, 30)) {
+			if (cc->rchg && vf_chance(r, 1, 20)) {
 				// changing the resend time of a request in flight
 				// (between finite values) is ordinary API use
 				int nv = (int) vf_range(r, 5, 50);
@@ -991,11 +991,18 @@ ctx_thread(void *arg)
 			// cancel the receive while the reply is on its way
 			if (t_send(t, D_NORMAL, false) != 0) break;
 			uint32_t cur = t->cur;
+			uint64_t t0 = vf_now_ns();
 			t_recv_start(t, LONG_MS);
 			if (vf_chance(r, 2, 3)) vf_usleep((int) vf_below(r, cc->tran == VF_T_INPROC ? 150 : 400));
 			nng_aio_cancel(t->raio);
 			rv = t_recv_wait(t, &m);
 			t->cur = 0;
+			if (rv == NNG_ETIMEDOUT && (vf_now_ns() - t0) / 1000000 < LONG_MS * 9 / 10) {
+				// timer defect (C02): an earlier, already finished
+				// receive's expiry was applied to this one
+				t->premature++;
+				rv = NNG_ECANCELED;
+			}
 			if (rv == 0) {
 				set_status(t, cur, ST_ANSWERED);
 				t->abort_lost++;
@@ -1020,10 +1027,15 @@ ctx_thread(void *arg)
 			// the OLD reply), the new request becomes the outstanding one
 			if (t_send(t, vf_chance(r, 1, 2) ? D_HOLD : D_NORMAL, false) != 0) break;
 			uint32_t first = t->cur;
+			uint64_t t0 = vf_now_ns();
 			t_recv_start(t, LONG_MS);
 			if (vf_chance(r, 1, 2)) vf_usleep((int) vf_below(r, 600));
 			rv = t_send(t, D_NORMAL, false); // marks 'first' superseded
 			int rv2 = t_recv_wait(t, &m);
+			if (rv2 == NNG_ETIMEDOUT && (vf_now_ns() - t0) / 1000000 < LONG_MS * 9 / 10) {
+				t->premature++; // see OP_ABORT
+				rv2 = NNG_ECANCELED;
+			}
 			if (rv2 == 0) {
 				// completed before the second send took over
 				set_status(t, first, ST_ANSWERED);
@@ -1063,8 +1075,8 @@ run_case(long idx, const casecfg *cc)
 	char       url[128], durl[4][128];
 	int        rv;
 
-	vf_case_begin(idx, "mode=%s tran=%s ctx=%d%s pipes=%d exchanges=%ld retry=%d tick=%d kills=%d big=%d jitter=%d/%dus key=%llx",
-	    mname[cc->mode], vf_tran_names[cc->tran], cc->nctx, cc->use_sock ? "+sock" : "", cc->npipes, cc->exchanges, cc->retry_ms,
+	vf_case_begin(idx, "mode=%s tran=%s ctx=%d%s pipes=%d exchanges=%ld retry=%d%s tick=%d kills=%d big=%d jitter=%d/%dus key=%llx",
+	    mname[cc->mode], vf_tran_names[cc->tran], cc->nctx, cc->use_sock ? "+sock" : "", cc->npipes, cc->exchanges, cc->retry_ms, cc->rchg ? "(changing)" : "",
 	    cc->tick_ms, cc->kills, cc->big, cc->jit_permille, cc->jit_us, (unsigned long long) cc->key);
 	vf_watchdog(240);
 	adv_init(cc);
@@ -1279,6 +1291,7 @@ main(int argc, char **argv)
 		// (an expired request is retransmitted once per tick, so the tick
 		// bounds the retransmission rate: at most contexts/tick per second)
 		c.tick_ms = c.retry_ms > 20 ? (int) vf_range(&r, 10, (uint32_t) c.retry_ms) : 10;
+		c.rchg = c.retry_ms > 0 && vf_chance(&r, 1, 3);
 		c.kills = c.mode != M_REP && vf_chance(&r, 1, 3);
 		c.big = c.mode == M_TCPADV && vf_chance(&r, 1, 3);
 		c.jit_permille = (int) vf_range(&r, 5, 60);
